@@ -52,6 +52,9 @@ func (h *Handler) serveCreateStreamTask(w http.ResponseWriter, r *http.Request, 
 		handlerStat.Write400ErrRequests.Incr()
 		return
 	}
+	if !h.authorizeLogStoreAdmin(w, user) {
+		return
+	}
 
 	h.Logger.Info("serveCreateStreamTask", zap.String("logStream", logStream), zap.String("repository", repository))
 
@@ -227,6 +230,9 @@ func (h *Handler) serveDeleteStreamTask(w http.ResponseWriter, r *http.Request, 
 		h.Logger.Error("serveDeleteStreamTask", zap.Error(err))
 		h.httpErrorRsp(w, ErrorResponse(err.Error(), LogReqErr), http.StatusBadRequest)
 		handlerStat.Write400ErrRequests.Incr()
+		return
+	}
+	if !h.authorizeLogStoreAdmin(w, user) {
 		return
 	}
 	taskId := mux.Vars(r)["taskId"]
